@@ -107,29 +107,11 @@ class OptimiserAnchors:
             raise AnchorLost('expected exactly one decision call (Option<f64> result, fed by State::score) in %s, '
                              'found %d' % (b.path, len(dec)))
         self.decision_bb, self.decision, self.decision_new_arg, self.proposal_score_bb = dec[0]
-        # the switch on the decision's discriminant
-        self.none_target = self.some_target = None
-        nxt = self.decision['target']
-        dest_l = self.decision['dest']['l']
-        blk = b.blocks[nxt]
-        t = blk['term']
-        if t['t'] == 'switch':
-            d = self.tr.origin(t['discr'])
-            if d['o'] == 'rvalue' and d['rv']['r'] == 'discr' and d['rv']['place']['l'] == dest_l:
-                for val, tgt in t['arms']:
-                    if val == '0':
-                        self.none_target = tgt
-                    elif val == '1':
-                        self.some_target = tgt
-                # `otherwise` takes the remaining variant
-                vals = {v for v, _ in t['arms']}
-                if '0' not in vals:
-                    self.none_target = t['otherwise']
-                if '1' not in vals:
-                    self.some_target = t['otherwise']
-                self.decision_switch_bb = nxt
-        if self.none_target is None or self.some_target is None:
-            raise AnchorLost('the decision result is not branched on by a discriminant switch directly after the call')
+        # tests of the decision's result: discriminant switches and is_none()/is_some() on (copies of) the value
+        self.decision_tests = [bi for bi in range(len(b.blocks)) if self.decision_test(bi) is not None]
+        self.decision_switch_bb = self.decision_tests[0] if self.decision_tests else None
+        if not self.decision_tests:
+            raise AnchorLost('the decision result is never branched on (no discriminant switch / is_none / is_some on it)')
         # loops
         self.inner = self.cfg.innermost_loop_of(self.decision_bb)
         if self.inner is None:
@@ -145,6 +127,71 @@ class OptimiserAnchors:
                 nm = self.decision_body.local_name(i)
                 if nm:
                     self.dec_args[nm] = self.decision['args'][i - 1]
+
+    # -- the decision's outcome along paths ---------------------------------------------------------------------
+    def _is_decision_value(self, pl_or_op, allow_ref=True):
+        o = self.tr.origin(pl_or_op)
+        if o['o'] == 'call' and o.get('bb') == self.decision_bb and o['p'] in ([], ['ref'] if allow_ref else []):
+            return True
+        return False
+
+    def decision_test(self, bi):
+        """If block bi ends in a switch that tests the decision's Option result, return {switch value: variant(0 None/1 Some)}
+        plus key 'otherwise' -> set of variants; else None."""
+        t = self.body.blocks[bi]['term']
+        if t['t'] != 'switch':
+            return None
+        d = self.tr.origin(t['discr'])
+        if d['o'] == 'rvalue' and d['rv']['r'] == 'discr' and not d['p']:
+            if self._is_decision_value(dict(d['rv']['place'], k='copy'), allow_ref=False) or \
+                    self._is_decision_value({'k': 'copy', 'l': d['rv']['place']['l'], 'p': [e for e in d['rv']['place']['p'] if e != 'deref']}):
+                m = {}
+                for val, tgt in t['arms']:
+                    if val in ('0', '1'):
+                        m.setdefault(tgt, set()).add(int(val))
+                vals = {v for v, _ in t['arms']}
+                rest = {0, 1} - {int(v) for v in vals if v in ('0', '1')}
+                if rest:
+                    m.setdefault(t['otherwise'], set()).update(rest)
+                return m
+        if d['o'] == 'call' and not d['p'] and call_matches(d['term'], 'Option::<T>::is_none', 'Option::<T>::is_some'):
+            if d['term']['args'] and self._is_decision_value(d['term']['args'][0]):
+                none_is_true = call_matches(d['term'], 'Option::<T>::is_none')
+                m = {}
+                for val, tgt in t['arms']:
+                    if val == '0':      # false
+                        m.setdefault(tgt, set()).add(0 if not none_is_true else 1)
+                vals = {v for v, _ in t['arms']}
+                if '0' in vals:
+                    m.setdefault(t['otherwise'], set()).add(0 if none_is_true else 1)
+                else:
+                    return None
+                return m
+        return None
+
+    def succs_under(self, bi, variant):
+        """CFG successors of bi on executions where the decision returned `variant` (0 None, 1 Some)."""
+        m = self.decision_test(bi)
+        if m is None:
+            return self.cfg.succ[bi]
+        return [tgt for tgt, vs in m.items() if variant in vs]
+
+    def reach_under(self, variant, starts, avoid=()):
+        avoid = set(avoid)
+        seen, stack = set(), [x for x in starts if x not in avoid]
+        while stack:
+            x = stack.pop()
+            if x in seen:
+                continue
+            seen.add(x)
+            for y in self.succs_under(x, variant):
+                if y not in avoid and y not in seen:
+                    stack.append(y)
+        return seen
+
+    def after_decision(self):
+        t = self.decision['target']
+        return [t] if t is not None else []
 
     def arg_local(self, op):
         """Root local an argument operand copies from (through temporaries)."""
